@@ -831,6 +831,7 @@ func (w *world) awaitImport(m keyMark, accept ...[]string) (ok bool, abortedWith
 	needRet := w.presig - w.basePre // imports that must have returned: one per change signalled so far
 	w.keyEvMu.Unlock()
 	deadline := time.Now().Add(60 * time.Second)
+	iter, settledSeen := 0, false
 	for {
 		w.keyEvMu.Lock()
 		for i := m.upd; i < len(w.keyEvs); i++ {
@@ -850,6 +851,16 @@ func (w *world) awaitImport(m keyMark, accept ...[]string) (ok bool, abortedWith
 			}
 		}
 		w.keyEvMu.Unlock()
+		if m.abort >= 0 && iter > 0 && !settledSeen && quiescent() {
+			// Nothing is running or pending any more. Whatever the hooks recorded so far is
+			// all there will be: look once more, then the wait is over without an import.
+			settledSeen = true
+			continue
+		}
+		if settledSeen {
+			return true, settledNoImport
+		}
+		iter++
 		select {
 		case <-w.keySig:
 		case <-time.After(50 * time.Millisecond):
@@ -859,6 +870,10 @@ func (w *world) awaitImport(m keyMark, accept ...[]string) (ok bool, abortedWith
 		}
 	}
 }
+
+// settledNoImport: awaitImport ended because no import of the newest setting happened
+// and none is running or pending.
+const settledNoImport = "\x00settled-without-import"
 
 // goid returns the id of the calling goroutine (pairs the two hooks of one import).
 func goid() uint64 {
@@ -943,15 +958,27 @@ func cfgStrings(keys []cfgKey) []string {
 
 // setKeys configures the API keys and waits until the change (and the clean-up of
 // already expired keys that portbase performs itself) took effect.
-func (w *world) setKeys(keys []cfgKey) error {
+func (w *world) setKeys(keys []cfgKey) error { return w.setKeysHow(keys, false) }
+
+// resetKeys revokes every key by resetting the option to its default (value nil): the
+// path the config database's Delete and a user interface's "reset" take.
+func (w *world) resetKeys() error { return w.setKeysHow(nil, true) }
+
+func (w *world) setKeysHow(keys []cfgKey, reset bool) error {
 	mk := w.mark()
 	since := mk.upd
-	w.elog.Rec("call", "client", "setKeys", map[string]any{"n": len(keys)})
-	if err := w.guarded("SetConfigOption(core/apiKeys)", func() error { return config.SetConfigOption(api.CfgAPIKeys, cfgStrings(keys)) }); err != nil {
+	w.elog.Rec("call", "client", "setKeys", map[string]any{"n": len(keys), "reset": reset})
+	var value any = cfgStrings(keys)
+	what := "SetConfigOption(core/apiKeys)"
+	if reset {
+		value, what = nil, "SetConfigOption(core/apiKeys, nil)"
+		w.b.Count("key_resets_to_default", 1)
+	}
+	if err := w.guarded(what, func() error { return config.SetConfigOption(api.CfgAPIKeys, value) }); err != nil {
 		if isStop(err) {
 			return err
 		}
-		return fmt.Errorf("SetConfigOption(apiKeys): %w", err)
+		return fmt.Errorf("%s: %w", what, err)
 	}
 	final, _, unsure := settle(keys, time.Now())
 	if unsure {
@@ -961,7 +988,20 @@ func (w *world) setKeys(keys []cfgKey) error {
 	if !ok {
 		return w.awaitFailed(since, keys, final, "api.keys.updated with the configured key list")
 	}
-	if aborted != "" {
+	switch {
+	case aborted == settledNoImport:
+		// No import of this setting happened and none is running or pending. The setting in
+		// force is what config's own getter returns now; the api package has to enforce it.
+		w.b.Count("settled_without_import", 1)
+		cur := strings.Join(w.keysGetSafe(), "\n")
+		switch cur {
+		case strings.Join(cfgStrings(final), "\n"):
+		case strings.Join(cfgStrings(keys), "\n"):
+			final = keys
+		default:
+			return w.awaitFailed(since, keys, final, "the configured key list")
+		}
+	case aborted != "":
 		// the import gave up on this setting; it is over nevertheless: from now on the newest
 		// setting decides (what it lists validly grants, everything else grants nothing)
 		w.b.Count("imports_returned_without_update", 1)
@@ -978,15 +1018,26 @@ func (w *world) setKeys(keys []cfgKey) error {
 
 // setDev switches development mode and waits for the config change event to have been
 // processed by the api module (same event, same hook point).
-func (w *world) setDev(on bool) error {
+func (w *world) setDev(on bool) error { return w.setDevHow(on, false) }
+
+// resetDev leaves development mode by resetting the option to its default (value nil).
+func (w *world) resetDev() error { return w.setDevHow(false, true) }
+
+func (w *world) setDevHow(on, reset bool) error {
 	mk := w.mark()
 	since := mk.upd
-	w.elog.Rec("call", "client", "setDev", map[string]any{"on": on})
-	if err := w.guarded("SetConfigOption(core/devMode)", func() error { return config.SetConfigOption(config.CfgDevModeKey, on) }); err != nil {
+	w.elog.Rec("call", "client", "setDev", map[string]any{"on": on, "reset": reset})
+	var value any = on
+	what := "SetConfigOption(core/devMode)"
+	if reset {
+		value, what = nil, "SetConfigOption(core/devMode, nil)"
+		w.b.Count("dev_resets_to_default", 1)
+	}
+	if err := w.guarded(what, func() error { return config.SetConfigOption(config.CfgDevModeKey, value) }); err != nil {
 		if isStop(err) {
 			return err
 		}
-		return fmt.Errorf("SetConfigOption(devMode): %w", err)
+		return fmt.Errorf("%s: %w", what, err)
 	}
 	final, _, unsure := settle(w.configured, time.Now())
 	if unsure {
@@ -996,7 +1047,13 @@ func (w *world) setDev(on bool) error {
 	if !ok {
 		return w.awaitFailed(since, w.configured, final, "api.keys.updated after the devMode change")
 	}
-	if aborted != "" {
+	switch {
+	case aborted == settledNoImport:
+		w.b.Count("settled_without_import", 1)
+		if strings.Join(w.keysGetSafe(), "\n") == strings.Join(cfgStrings(w.configured), "\n") {
+			final = w.configured
+		}
+	case aborted != "":
 		w.b.Count("imports_returned_without_update", 1)
 		if aborted == strings.Join(cfgStrings(w.configured), "\n") {
 			final = w.configured
@@ -1004,7 +1061,11 @@ func (w *world) setDev(on bool) error {
 	}
 	w.configured = final
 	w.model.setKeys(final)
-	w.model.Dev = on
+	// the value in force is what config's own getter returns
+	w.model.Dev = config.GetAsBool(config.CfgDevModeKey, false)()
+	if w.model.Dev != on {
+		w.b.Note("core/devMode reads %v through the config getter after it was set to %v (reset=%v)", w.model.Dev, on, reset)
+	}
 	w.b.Count("dev_switches_awaited", 1)
 	return nil
 }
